@@ -30,10 +30,26 @@ def _writer_twin(fd, e, tmp):
     for s in fd["segs"]:
         if s.get("il") or not s.get("meta", True) or s.get("marker"):
             return None
+        for o in s["objs"]:
+            if o["ty"] == "TimeStamp" or (o["ty"] == "String" and o["n"] * s["k"] == 0):
+                return None
     path = os.path.join(tmp, "w.tdms")
     pos = {}
-    with TdmsWriter(path, index_file=True) as w:
-        for s in fd["segs"]:
+    nseg = len(fd["segs"])
+    for si, s in enumerate(fd["segs"]):
+        # the second half of the segments is written by a second writer session that appends
+        mode = "w" if si == 0 else "a"
+        if si not in (0, (nseg + 1) // 2):
+            continue
+        chunk = fd["segs"][si:(nseg + 1) // 2] if si == 0 else fd["segs"][si:]
+        _write_session(TdmsWriter, ChannelObject, path, mode, chunk, e, pos)
+    return path
+
+
+def _write_session(TdmsWriter, ChannelObject, path, mode, segs, e, pos):
+    from .parser import components
+    with TdmsWriter(path, mode=mode, index_file=True) as w:
+        for s in segs:
             objs = []
             for o in s["objs"]:
                 n = o["n"] * s["k"]
@@ -42,18 +58,12 @@ def _writer_twin(fd, e, tmp):
                 pos[o["p"]] = start + n
                 if o["ty"] == "String":
                     arr = list(vals)
-                    if not arr:
-                        return None
-                elif o["ty"] == "TimeStamp":
-                    return None
                 else:
                     arr = np.frombuffer(b"".join(vals), dtype=enc.NPTYPE[o["ty"]]) if vals else \
                         np.array([], dtype=enc.NPTYPE[o["ty"]])
-                from .parser import components
                 g, c = components(o["p"])
                 objs.append(ChannelObject(g, c, arr))
             w.write_segment(objs)
-    return path
 
 
 def replay_index_case(case):
@@ -134,7 +144,10 @@ def replay_index_case(case):
         wp = _writer_twin(fd, e, tmp)
         if wp:
             n += 1
-            w_idx = _views(TdmsFile, wp)
+            try:
+                w_idx = _views(TdmsFile, wp)
+            except Exception as ex:  # noqa
+                w_idx = {api: {"exception": "%s: %s" % (type(ex).__name__, ex)} for api in ("read", "open", "meta")}
             os.rename(wp + "_index", wp + "_index.off")
             w_plain = _views(TdmsFile, wp)
             for api in ("read", "open", "meta"):
@@ -142,7 +155,7 @@ def replay_index_case(case):
                     fails.append((sig("index-not-transparent", api=api, producer="TdmsWriter"),
                                   dict(bundle, api=api, without_index=w_plain[api], with_index=w_idx[api])))
             for nm in tys:
-                got = w_idx["read"]["chans"].get(PATH[nm])
+                got = (w_idx["read"].get("chans") or {}).get(PATH[nm])
                 if got is None or got.get("data") != full[nm]:
                     fails.append((sig("writer-twin-content"), dict(bundle, channel=nm)))
             obs["writer_twins"] = 1
